@@ -43,13 +43,14 @@ def run(ctx):
     rep = ctx.rep
     new = ctx.fn('BulletproofGens::<P>::new', 'R-C12-1')
     if new is not None:
-        chains = [(bb, t) for bb, t in ctx.calls(new) if callee_name(t).endswith('GeneratorsChain::<P>::new')]
+        # chain constructions in the constructor or a private helper of it, labels in the constructor's vocabulary
+        chains = ctx.flat_calls(new, lambda n, t: n.endswith('GeneratorsChain::<P>::new'))
         rep.floor('R-C12-1', 'chain seeds', len(chains), 2)
-        for n, (bb, t) in enumerate(chains):
-            lab = ctx.args(new, bb)[0]
+        for n, (fr, bb, t, a) in enumerate(chains):
+            lab = a[0]
             dep = depends_on_param(lab, new, {1, 2})
             rep.check(not dep, 'R-C12-1', 'R-C12-1/label/%d' % n, 'chain label %d does not depend on gens_capacity or party_capacity: %s' % (n, short(lab, 120)),
-                      'chain label %d depends on a capacity parameter: %s' % (n, short(lab, 200)), ctx.where(new, bb))
+                      'chain label %d depends on a capacity parameter: %s' % (n, short(lab, 200)), ctx.where(fr.body, bb))
         # positive control: the capacities do reach the take counts / loop bounds
         uses = 0
         for bb, t in ctx.calls(new):
@@ -62,7 +63,7 @@ def run(ctx):
             if callee_decl(t) == 'std::iter::Extend::extend':
                 a = ctx.args(new, bb)[1]
                 ads = ctx.adapters(a)
-                if any(x.tag == 'call' and x[1].endswith('GeneratorsChain::<P>::new') for x in walk(a)):
+                if any(x.tag == 'call' and x[1].endswith('GeneratorsChain::<P>::new') for x in walk(ctx.eng.expand(a, stop={c[2] and callee_name(c[2]) for c in chains}))):
                     rep.check(ads == ['take'], 'R-C12-1', 'R-C12-1/prefix/%d' % bb, 'the chain is consumed as a prefix (take only)', 'the chain is consumed through %s' % ads, ctx.where(new, bb))
     # aggregated iterator hands out generator (party, index) by position, independent of capacity: n, m only bound the walk
     # ---- R-C12-2
